@@ -40,7 +40,7 @@ BOUNDS = {
     "rule lists": "by id, by name, both, 'any', 'ANY', empty list, unknown reference, other rule's id, id in upper case",
     "names/conditions": "rule detection name sets x 8 rule condition forms x filter detection name sets x 9 filter condition forms (see RULE_NAMES, FILTER_NAMES, RCONDS, FCONDS); 1 or 2 stacked filters; 3 draws of the internal prefix incl. one colliding with a rule detection name",
     "thorough": "the names/conditions/stacking/draw space crossed with the 9 category relations (filter/rule category absent or one of two values) and 4 rule-list forms",
-    "shared filters": "one or two stacked filters with rules 'any' applied to TWO rules of one collection (12 x 4 rule sets x 11 filter sets x 2 draws), with and without a pipeline that prefixes every field name",
+    "shared filters": "one or two stacked filters with rules 'any' applied to TWO rules of one collection (12 x 4 rule sets x 11 filter sets x 2 draws), with and without a pipeline that prefixes every field name; REP=1: two conditions per rule and the second rule is an `action: repeat` of the first document",
     "outside": "other names / condition shapes; filters on correlation rules (never applied by design); more than 2 stacked filters",
 }
 ASSUMPTIONS = [
@@ -199,7 +199,7 @@ def _prefixed(f, prefix):
     return (k, [_prefixed(x, prefix) for x in f[1]])
 
 
-def check_shared(rs: int, rs2: int, fs: int, stacked: bool, piped: bool, draw: int) -> bool:
+def check_shared(rs: int, rs2: int, fs: int, stacked: bool, piped: bool, draw: int, rep: bool = False) -> bool:
     """The same filter(s) applied to TWO rules of one collection (optionally converted through a pipeline that
     renames every field): each rule's query is (rule) AND (filter), as if the filter had been applied to it alone."""
     fnames, fcond = FILTER_SETS[fs]
@@ -208,11 +208,18 @@ def check_shared(rs: int, rs2: int, fs: int, stacked: bool, piped: bool, draw: i
     ls = {"category": "a"}
     t1 = rule_doc(*RULE_SETS[rs], ls)
     t2 = rule_doc(*RULE_SETS[rs2], ls, OTHER, "second", 5)
+    second = t2
+    if rep:
+        # two conditions per rule, and the second rule is a collection-level repetition of the first document
+        c = RULE_SETS[rs][1]
+        t1["detection"]["condition"] = [c, f"not ({c})"]
+        second = {"action": "repeat", "title": "second", "id": OTHER, "name": "second"}
+        t2 = dict(copy.deepcopy(t1), title="second", id=OTHER, name="second")
     filters = [filter_doc(fnames, fcond, ls, "any", 0)]
     if stacked:
         filters.append(filter_doc(["g1"], "not g1", ls, "any", 1))
     try:
-        got = convert_docs([t1, t2] + filters, DRAWS[draw], PREFIX_PIPE if piped else None)
+        got = convert_docs([t1, second] + filters, DRAWS[draw], PREFIX_PIPE if piped else None)
     except SigmaError:
         return False
     for title, doc, rnames in (("target", t1, RULE_SETS[rs][0]), ("second", t2, RULE_SETS[rs2][0])):
@@ -239,7 +246,7 @@ def check_shared(rs: int, rs2: int, fs: int, stacked: bool, piped: bool, draw: i
 
 def c11_shared(rs: int, rs2: int, fs: int, stacked: bool, piped: bool, draw: int) -> bool:
     """
-    pre: 0 <= rs < len(RULE_SETS) and 0 <= rs2 < 4
+    pre: 0 <= rs < len(RULE_SETS) and 0 <= rs2 < (1 if P("REP", 0) else 4)
     pre: 0 <= fs < len(FILTER_SETS)
     pre: 0 <= draw < 2
     post: _
@@ -247,7 +254,7 @@ def c11_shared(rs: int, rs2: int, fs: int, stacked: bool, piped: bool, draw: int
     a, b, f = sel(rs, len(RULE_SETS)), sel(rs2, 4), sel(fs, len(FILTER_SETS))
     st, pp, dr = selb(stacked), selb(piped), sel(draw, 2)
     with concrete_section():
-        ok = check_shared(a, b, f, st, pp, dr)
+        ok = check_shared(a, b, f, st, pp, dr, bool(P("REP", 0)))
     return fin(ok)
 
 
@@ -263,8 +270,8 @@ def c11_strict_undefined_detection_error() -> bool:
     return True
 
 
-def c11_shared_concrete(rs: int, rs2: int, fs: int, stacked: bool, piped: bool, draw: int) -> bool:
-    return check_shared(rs, rs2, fs, stacked, piped, draw)
+def c11_shared_concrete(rs: int, rs2: int, fs: int, stacked: bool, piped: bool, draw: int, rep: bool = False) -> bool:
+    return check_shared(rs, rs2, fs, stacked, piped, draw, rep)
 
 
 def c11_filter(rs: int, fs: int, fc: int, fp: int, fsv: int, rc: int, rp: int, rsv: int, rf: int, stacked: bool, draw: int) -> bool:
@@ -311,7 +318,7 @@ OBLIGATIONS = (
     # applicability: log source relations x rule list forms
     + [Ob("c11_filter", {"MODE": 1, "RF": r}, 900) for r in range(9)]
     + [Ob("c11_logsource", {}, 300)]
-    + [Ob("c11_shared", {}, 900)]
+    + [Ob("c11_shared", {}, 900), Ob("c11_shared", {"REP": 1}, 900)]
     # thorough: names / conditions / stacking / draws crossed with category relations and rule-list forms
     + [Ob("c11_filter", {"MODE": 2, "RSLO": lo, "RSHI": lo + 1}, 2400, tier="thorough") for lo in range(len(RULE_SETS))]
 )
